@@ -700,6 +700,10 @@ func combinatorOps(c *core.Ctx) {
 						good = v.Op == "field" && v.Aux == fCode && paramOf(v.Args[0], fn, len(fn.Params)-1)
 					}
 				}
+				// the morphism itself retyped by a conversion (only the phantom type parameter differs): same code
+				if !e.freshRoot && paramOf(r, fn, len(fn.Params)-1) {
+					good = true
+				}
 				if !good {
 					ok, why = false, "the result does not wrap the same code: "+short(r)
 				}
@@ -740,6 +744,33 @@ func deferredAtom(fn *ssa.Function) *ir.Term {
 	return &ir.Term{Op: "load", Aux: "0", Args: []*ir.Term{{Op: "faddr", Aux: "Deferred", Args: []*ir.Term{{Op: "param", Aux: fn.Params[0].Name()}}}}}
 }
 
+// recursiveCore resolves the recursive walker behind fn: fn itself when it calls itself; otherwise, when fn is one
+// forwarding call `return recv.g(args...)` to a self-recursive method g on the same receiver, g analysed with its
+// parameters bound to the actual arguments (terms over fn's parameters - a collaborator object built by fn is then
+// followed into its methods). extra = the arguments after the receiver, which every delegation must pass on.
+func recursiveCore(c *core.Ctx, fn *ssa.Function) (*ssa.Function, *ir.Analysis, []*ir.Term) {
+	if selfRecursive(fn) {
+		var extra []*ir.Term
+		for _, p := range fn.Params[1:] {
+			extra = append(extra, &ir.Term{Op: "param", Aux: p.Name(), Typ: p.Type(), Src: p})
+		}
+		return fn, c.Analyze(fn), extra
+	}
+	an := c.AnalyzeKeeping(fn, "recursive-core", selfRecursive)
+	ps := an.AllPaths()
+	if len(an.Problems) > 0 || len(ps) != 1 || ps[0].Exit != ir.ExitReturn || len(ps[0].Results) != 1 {
+		return nil, nil, nil
+	}
+	cs := calls(ps[0])
+	if len(cs) != 1 || cs[0].Static == nil || !selfRecursive(cs[0].Static) || len(cs[0].A) == 0 || !paramOf(cs[0].A[0], fn, 0) ||
+		!ir.Same(ps[0].Results[0], cs[0].R) || len(nonLocalStores(ps[0])) != 0 {
+		return nil, nil, nil
+	}
+	g := cs[0].Static
+	gan := c.AnalyzeFrom(g, ir.NewRootState(g, cs[0].A, nil, ps[0].End), "core-of:"+ir.FuncName(fn))
+	return g, gan, cs[0].A[1:]
+}
+
 func appendDiscipline(c *core.Ctx) {
 	fn, _ := seqMethods(c)
 	name := "duct.AstSeq.append"
@@ -747,14 +778,25 @@ func appendDiscipline(c *core.Ctx) {
 		c.Undecided("append-discipline", name, 0, "anchor not found")
 		return
 	}
-	if !selfRecursive(fn) {
+	coreFn, an, extra := recursiveCore(c, fn)
+	if coreFn == nil {
 		why := iterativeDiscipline(c, fn, "append")
 		c.Check(why == "", "append-discipline", name, fn.Pos(), "closed => false; descend while the last child is an open nested sequence; exactly one append there", "%s", why)
 		return
 	}
-	an := c.Analyze(fn)
 	if problems(c, "append-discipline", name, an) {
 		return
+	}
+	sameExtra := func(st *ir.Step) bool {
+		if len(st.A) != len(extra)+1 {
+			return false
+		}
+		for i, e := range extra {
+			if !ir.Same(st.A[i+1], e) {
+				return false
+			}
+		}
+		return true
 	}
 	ok := true
 	sawRefuse, sawLocal, sawDelegate := false, false, false
@@ -769,7 +811,7 @@ func appendDiscipline(c *core.Ctx) {
 		stores := nonLocalStores(p)
 		var rec []*ir.Step
 		for _, st := range p.Events(ir.KCall) {
-			if st.Static == fn {
+			if st.Static == coreFn {
 				rec = append(rec, st)
 			}
 		}
@@ -819,7 +861,7 @@ func appendDiscipline(c *core.Ctx) {
 			}
 			delegated := false
 			if len(rec) == 1 {
-				if !isLastChildAssert(rec[0].A[0], fn) || !paramOf(rec[0].A[1], fn, 1) {
+				if !isLastChildAssert(rec[0].A[0], fn) || !sameExtra(rec[0]) {
 					ok = false
 					c.Fail("append-discipline", name, rec[0].Pos(), "the delegation must go to the last child, asserted to be a nested sequence, with the same node; found %s", short(rec[0].A[0]))
 				}
@@ -865,14 +907,25 @@ func unitDiscipline(c *core.Ctx) {
 		c.Undecided("unit-discipline", name, 0, "anchor not found")
 		return
 	}
-	if !selfRecursive(fn) {
+	coreFn, an, extra := recursiveCore(c, fn)
+	if coreFn == nil {
 		why := iterativeDiscipline(c, fn, "unit")
 		c.Check(why == "", "unit-discipline", name, fn.Pos(), "closed => false; descend while the last child is an open nested sequence; close it unless it is the root", "%s", why)
 		return
 	}
-	an := c.Analyze(fn)
 	if problems(c, "unit-discipline", name, an) {
 		return
+	}
+	sameExtra := func(st *ir.Step) bool {
+		if len(st.A) != len(extra)+1 {
+			return false
+		}
+		for i, e := range extra {
+			if !ir.Same(st.A[i+1], e) {
+				return false
+			}
+		}
+		return true
 	}
 	ok := true
 	sawRefuse, sawClose, sawRootKeep, sawDelegate := false, false, false, false
@@ -887,7 +940,7 @@ func unitDiscipline(c *core.Ctx) {
 		stores := nonLocalStores(p)
 		var rec []*ir.Step
 		for _, st := range p.Events(ir.KCall) {
-			if st.Static == fn {
+			if st.Static == coreFn {
 				rec = append(rec, st)
 			}
 		}
@@ -918,7 +971,7 @@ func unitDiscipline(c *core.Ctx) {
 			}
 			delegated := false
 			if len(rec) == 1 {
-				if !isLastChildAssert(rec[0].A[0], fn) {
+				if !isLastChildAssert(rec[0].A[0], fn) || !sameExtra(rec[0]) {
 					ok = false
 					c.Fail("unit-discipline", name, rec[0].Pos(), "the delegation must go to the last child asserted to be a nested sequence")
 				}
